@@ -278,12 +278,20 @@ func (c *Ctx) classifyErr(p *errProducer) errVerdict {
 					if x.Op == token.EQL {
 						nonNilSucc = b.Succs[1]
 					}
-					if !edgeDominates(b, nonNilSucc, nonNilSucc) {
-						problems = append(problems, "the non-nil branch is empty: the error is tested and then ignored")
-						probPos = iff.Pos()
-						continue
+					var region map[*ssa.BasicBlock]bool
+					if edgeDominates(b, nonNilSucc, nonNilSucc) {
+						region = regionOfEdge(b, nonNilSucc)
+					} else {
+						// the branch is shared with another condition (`err != nil ||
+						// x == nil`): it handles the error if everything below it
+						// is an error exit
+						region = domSubtree(nonNilSucc)
+						if ok, _, _ := c.errorExitStatus(p.Fn, region); !ok && !c.regionForwards(region, vals) {
+							problems = append(problems, "the non-nil branch is empty: the error is tested and then ignored")
+							probPos = iff.Pos()
+							continue
+						}
 					}
-					region := regionOfEdge(b, nonNilSucc)
 					ok, why, _ := c.errorExitStatus(p.Fn, region)
 					if ok {
 						handled = append(handled, "checked; every path of the non-nil branch returns a non-nil error or panics")
@@ -579,7 +587,7 @@ func (c *Ctx) isNonScanningWrite(p *errProducer) bool {
 		for _, mc := range c.ClosureSites[p.Fn] {
 			for _, r := range *mc.Referrers() {
 				if st, ok := r.(*ssa.Store); ok {
-					if fa, ok := st.Addr.(*ssa.FieldAddr); ok && fieldOfAddr(fa).Var.Name() == "Usage" {
+					if fa, ok := st.Addr.(*ssa.FieldAddr); ok && vname(fieldOfAddr(fa).Var) == "Usage" {
 						return true
 					}
 				}
